@@ -273,3 +273,24 @@ pub fn write_behind_programs() -> Vec<Program> {
     }
     v
 }
+
+/// C02 (schedules): a flush acknowledgement racing the background flusher.
+pub fn ack_programs() -> Vec<Program> {
+    let t = Arc::new(tables());
+    let mut v = Vec::new();
+    let cfg = small(true, false, 12);
+    let cases: Vec<(&str, Vec<Op>, Vec<Vec<Op>>)> = vec![
+        ("insert;tick|flush", vec![], vec![vec![ins(K, V1), Op::Tick], vec![Op::Flush]]),
+        ("insert;tick;flush", vec![], vec![vec![ins(K, V1), Op::Tick, Op::Flush]]),
+        ("overwrite;tick|flush", vec![ins(K, V1), Op::Flush], vec![vec![ins(K, V1B), Op::Tick], vec![Op::Flush]]),
+        ("overwrite;tick;flush|get", vec![ins(K, V2), Op::Flush], vec![vec![ins(K, V2B), Op::Tick, Op::Flush], vec![Op::Get(K)]]),
+        ("delete;tick|flush", vec![ins(K, V1), Op::Flush], vec![vec![Op::Delete { k: K, ts: 0 }, Op::Tick], vec![Op::Flush]]),
+        ("insert;flush|insert-other;flush", vec![], vec![vec![ins(K, V1), Op::Flush], vec![ins(U, VU1), Op::Flush]]),
+        ("insert;tick|insert-other;flush", vec![], vec![vec![ins(K, V1), Op::Tick], vec![ins(U, VU1), Op::Flush]]),
+        ("delete;flush|reuse;flush", vec![ins(K, V2), Op::Flush], vec![vec![Op::Delete { k: K, ts: 0 }, Op::Flush], vec![ins(U, VU2), Op::Flush]]),
+    ];
+    for (name, setup, threads) in cases {
+        v.push(Program { name: format!("ack:{name}"), cfg, tables: t.clone(), setup, threads, observe: vec![K, U] });
+    }
+    v
+}
